@@ -4,6 +4,7 @@ package bus
 
 import (
 	"bytes"
+	"sync"
 
 	"github.com/lugu/qiloop/bus/net"
 	"github.com/lugu/qiloop/internal/zzverif/sym"
@@ -467,6 +468,13 @@ func C04TracedObject() {
 		out := zzRoundTrip(v.hostile, zzFrame(net.Call, v.sid, 1, 85, 60, []byte{1}))
 		sym.Assert(len(out) == 1 && out[0].Header.Type == net.Reply, "traced/enable-trace")
 	}
+	if sym.Bool("statistics-enabled") {
+		// with method statistics on, every call goes through the measuring wrapper of ITS connection; the
+		// calls below come from this connection, the probes at the end from another one (both connections
+		// look alike: same kind of transport, same textual address)
+		out := zzRoundTrip(v.hostile, zzFrame(net.Call, v.sid, 1, 81, 61, []byte{1}))
+		sym.Assert(len(out) == 1 && out[0].Header.Type == net.Reply, "traced/enable-stats")
+	}
 	for i := 0; i < 2; i++ {
 		id := sym.U32("call-id")
 		action := uint32(1000)
@@ -488,4 +496,56 @@ func C04TracedObject() {
 	}
 	v.probe("after-traced-calls")
 	sym.Reach("traced-done")
+}
+
+// zzRouted: a service that records which messages the router handed to it.
+type zzRouted struct {
+	id  uint32
+	mu  sync.Mutex
+	got []uint32 // the Service field of every message received
+}
+
+func (z *zzRouted) ServiceID() uint32            { return z.id }
+func (z *zzRouted) Add(o Actor) (uint32, error)  { return 0, nil }
+func (z *zzRouted) Remove(objectID uint32) error { return nil }
+func (z *zzRouted) Terminate() error             { return nil }
+func (z *zzRouted) Receive(m *net.Message, from Channel) error {
+	z.mu.Lock()
+	z.got = append(z.got, m.Header.Service)
+	z.mu.Unlock()
+	return nil
+}
+
+// C04RouterConcurrent: the router is entered by every connection's goroutine. Two connections address two
+// different services at the same moment (every shared-memory access of the router is a scheduling point),
+// then one more message is routed: each service only ever receives messages addressed to it — also the
+// messages that follow the concurrent pair. (Cross-listed under C06: a service-0 message handed to another
+// service, or the reverse, is how an unauthenticated request would get past the gate.)
+func C04RouterConcurrent() {
+	sym.RacyScope("bus.Router")
+	a, b := &zzRouted{id: 0}, &zzRouted{id: 1}
+	r := &Router{services: map[uint32]ServiceReceiver{}}
+	sym.Assert(r.Add(0, a) == nil && r.Add(1, b) == nil, "router/services-added")
+	st := newZZStream()
+	ch := NewChannel(net.NewEndPoint(st), DefaultCap())
+	// an earlier message (whatever the router remembers between messages is warm)
+	warm := uint32(sym.Choose("earlier-message-to", 2))
+	m0 := zzFrame(net.Call, warm, 1, 1, 1, nil)
+	r.Receive(&m0, ch)
+	done := make(chan bool, 2)
+	go func() { m := zzFrame(net.Call, 0, 1, 1, 2, nil); r.Receive(&m, ch); done <- true }()
+	go func() { m := zzFrame(net.Call, 1, 1, 1, 3, nil); r.Receive(&m, ch); done <- true }()
+	<-done
+	<-done
+	last := uint32(sym.Choose("later-message-to", 2))
+	m3 := zzFrame(net.Call, last, 1, 1, 4, nil)
+	r.Receive(&m3, ch)
+	for _, s := range a.got {
+		sym.Assert(s == 0, "router/service-0-got-a-message-for-another-service")
+	}
+	for _, s := range b.got {
+		sym.Assert(s == 1, "router/service-1-got-a-message-for-another-service")
+	}
+	sym.Assert(len(a.got)+len(b.got) == 4, "router/message-lost-or-duplicated")
+	sym.Reach("router-concurrent-done")
 }
